@@ -188,7 +188,7 @@ def check_C02(ctx):
         ctx.model_must_hold(r, what='(limb-level cfdiv_q/tdiv_q/tdiv_r/cfdiv_r _2exp: shift, strip, rounding carry, two\'s complement remainder)')
     ctx.validate(ctx.run_driver(ctx.build('default'), 'corners_z', shards=16, extra='funs=mpz_tdiv_q:mpz_tdiv_r:mpz_fdiv_q:mpz_fdiv_r:mpz_cdiv_q:mpz_cdiv_r:mpz_mod:mpz_tdiv_qr:mpz_divexact', timeout=900))
     # the internal division kernels called directly, each against the contract its own source states (SemK2.tla)
-    trace_drivers(ctx, [('c02_tdiv', 16, 1200), ('c02_div1', 8, 600), ('c02_mpz', 16, 900), ('k2_sbdc', 8, 900), ('k2_inv', 8, 900), ('k2_bdiv', 8, 900), ('k2_div1', 8, 900), ('k2_divis', 2, 600)],
+    trace_drivers(ctx, [('c02_tdiv', 16, 1200), ('c02_div1', 8, 600), ('c02_mpz', 16, 900), ('k2_sbdc', 8, 900), ('k2_inv', 8, 900), ('k2_bdiv', 8, 900), ('k2_div1', 8, 900), ('k2_divis', 2, 600), ('scalar_ext', 14, 600)],
                   pure_drivers=['c02_tdiv', 'c02_div1', 'c02_mpz', 'k2_div1'])
     return ctx.finish('model_checking',
         rule='R2: UdivPreinv = every normalised two-limb divisor and every admissible three-limb numerator at word widths 3..5 bits; SbDivQr = every normalised '
@@ -206,7 +206,7 @@ def check_C10(ctx):
     r = ctx.tlc_model('MpzLogic', cfg_text=cfg(consts={'B': 4, 'V': 6 if q else 17, 'Variant': '"ok"'}), name='MpzLogic', timeout=3000)
     ctx.model_must_hold(r, what='(mpz_and over the block store: sign paths, realloc, temporaries, aliasing)')
     ctx.validate(ctx.run_driver(ctx.build('default'), 'corners_z', shards=16, extra='funs=mpz_and:mpz_ior:mpz_xor', timeout=900))
-    trace_drivers(ctx, [('c10_mpz', 16, 900), ('c10_mpn', 8, 600)], pure_drivers=['c10_mpz', 'c10_mpn'])
+    trace_drivers(ctx, [('c10_mpz', 16, 900), ('c10_mpn', 8, 600), ('scalar_ext', 14, 600)], pure_drivers=['c10_mpz', 'c10_mpn'])
     return ctx.finish('model_checking',
         rule='R2: MpzLogic enumerates every identity triple (res,op1,op2), every value triple in -V..V at limb base 4 and exact/spare allocations through the transcribed '
              'mpz_and. R3/R1: and/ior/xor/com/setbit/clrbit/combit/tstbit/scan0/scan1/popcount/hamdist for all sign combinations x operand shapes (random kinds, +-1, +-2^k, low zero '
@@ -347,7 +347,7 @@ def check_C09(ctx):
     b = ctx.build('default')
     ctx.validate(ctx.run_driver(b, 'alias', shards=8, extra='funs=mpz_sqrt:mpz_sqrtrem:mpz_root:mpz_nthroot:mpz_rootrem:mpz_perfect_square_p:mpz_perfect_power_p', tier='thorough', timeout=900))
     ctx.validate(ctx.run_driver(b, 'corners_all', shards=8, extra='funs=mpz_sqrt:mpz_sqrtrem:mpz_root:mpz_nthroot:mpz_rootrem:mpz_perfect_square_p:mpz_perfect_power_p', timeout=900))      # the same functions on every corner-alphabet operand
-    trace_drivers(ctx, [('c09_mpz', 16, 1500), ('c09_mpn', 8, 900), ('k5_root', 8, 900)], pure_drivers=['c09_mpn', 'k5_root'])      # k5_root: mpn_rootrem / mpn_rootrem_basecase called directly (roots B^k-1, powers of two, index above the bit length)
+    trace_drivers(ctx, [('c09_mpz', 16, 1500), ('c09_mpn', 8, 900), ('k5_root', 8, 900), ('scalar_ext', 14, 600)], pure_drivers=['c09_mpn', 'k5_root'])      # k5_root: mpn_rootrem / mpn_rootrem_basecase called directly (roots B^k-1, powers of two, index above the bit length)
     return ctx.finish('model_checking',
         rule='R2: RootContract checks the root and perfect-power predicates of the specification against brute force for every |u|<=M. R3/R1: sqrt/sqrtrem/root/nthroot/rootrem/'
              'perfect_square_p/perfect_power_p on u = k^n, k^n-1, k^n+1 and random u of the same size, k of 0..130 limbs (all-ones, runs, random), n in 1..200 and around the bit length, '
@@ -472,7 +472,7 @@ def check_C16(ctx):
     funs = 'mpz_fac_ui:mpz_2fac_ui:mpz_mfac_uiui:mpz_primorial_ui:mpz_bin_ui:mpz_bin_uiui:mpz_fib_ui:mpz_fib2_ui:mpz_lucnum_ui:mpz_lucnum2_ui:mpz_remove'
     ctx.validate(ctx.run_driver(b, 'alias', shards=8, extra='funs=' + funs, tier='thorough', timeout=900))
     ctx.validate(ctx.run_driver(b, 'corners_all', shards=8, extra='funs=' + funs, timeout=900))      # the same functions on every corner-alphabet operand
-    trace_drivers(ctx, [('c16_comb', 16, 1500), ('c16_bin', 16, 1500), ('c16_prime', 16, 1500), ('k5_comb', 8, 900), ('k5_prime', 8, 900), ('c16_psp', 16, 1200)], pure_drivers=['c16_comb', 'c16_bin', 'k5_comb'])
+    trace_drivers(ctx, [('c16_comb', 16, 1500), ('c16_bin', 16, 1500), ('c16_prime', 16, 1500), ('k5_comb', 8, 900), ('k5_prime', 8, 900), ('c16_psp', 16, 1200), ('scalar_ext', 14, 600)], pure_drivers=['c16_comb', 'c16_bin', 'k5_comb'])      # scalar_ext: step / k / index arguments at the end of their type
     # k5_*: the internal helpers called directly: mpn_fib2_ui, mpz_oddfac_1 (both flags), mpz_prodlimbs, gmp_primesieve (whole bit array), gmp_nextprime (sequence), mpz_trial_division
     return ctx.finish('model_checking',
         rule='R2: BinDispatch = the selection of mpz_bin_uiui with the table limits of the tree: every basecase result, odd factorial and odd central binomial table entry fits a limb and each '
